@@ -19,13 +19,15 @@ of every CobaRandom stream (read from the generator frame).  The oracle is evalu
   learn      never raises and returns within the step horizon (CPU time); the next predict must still work (the leaves of
              the search are probed with one more predict)
 """
-import math, signal, types, traceback
-from collections import defaultdict, deque
+import math, signal, types, traceback, re
+from collections import defaultdict, deque, abc
+from types import MappingProxyType
 
 from vf.core import Check, HarnessError, case_hash
 
 from coba.random import CobaRandom
-from coba.primitives import HashableDense, HashableSparse
+from coba.primitives import HashableDense, HashableSparse, Dense_, Sparse_
+from coba.pipes.rows import LazyDense, LazySparse, HeadDense, SparseDense
 from coba.statistics import OnlineVariance
 from coba.safety import SafeLearner
 from coba.learners.bandit import BanditEpsilonLearner, BanditUCBLearner, FixedLearner, RandomLearner
@@ -51,8 +53,17 @@ SETS = {
 # int-valued stand-ins (disjoint from everything, like the sets they replace) used only to classify a violation:
 # does it need the action type?
 SETS.update({'j2': (lambda: [4, 5], [1.0, 0.0], 'int actions'), 'k2': (lambda: [6, 7], {'x': 1}, 'int actions'), 'j1': (lambda: [8], 'c', 'int actions')})
-SUBST = {'d2': 'j2', 'p2': 'k2', 's1': 'j1'}
-SET_SIZE = {'i2': 2, 'i3': 3, 's1': 1, 'd2': 2, 'p2': 2}
+# actions that are coba's own row types / read-only mappings (dense / sparse by the Dense / Sparse ABCs, not list / tuple / dict)
+SETS.update({
+    'ld2': (lambda: [LazyDense([1, 0]), LazyDense([0, 1])],                                          [1.0, 0.0], 'coba dense row actions'),
+    'hd2': (lambda: [HeadDense([1, 0], {'a': 0, 'b': 1}), HeadDense([0, 1], {'a': 0, 'b': 1})],      [1.0, 0.0], 'coba dense row actions'),
+    'sd2': (lambda: [SparseDense({0: 1}, 2), SparseDense({1: 1}, 2)],                                [1.0, 0.0], 'coba dense row actions'),
+    'ls2': (lambda: [LazySparse({'a': 1}), LazySparse({'b': 2})],                                    {'x': 1},   'coba sparse row / mapping actions'),
+    'mp2': (lambda: [MappingProxyType({'a': 1}), MappingProxyType({'b': 2})],                        {'x': 1},   'coba sparse row / mapping actions'),
+})
+TYPED_SETS = ['ld2', 'hd2', 'sd2', 'ls2', 'mp2']
+SUBST = {'d2': 'j2', 'p2': 'k2', 's1': 'j1', 'ld2': 'j2', 'hd2': 'j2', 'sd2': 'j2', 'ls2': 'k2', 'mp2': 'k2'}
+SET_SIZE = {'i2': 2, 'i3': 3, 's1': 1, 'd2': 2, 'p2': 2, 'ld2': 2, 'hd2': 2, 'sd2': 2, 'ls2': 2, 'mp2': 2}
 ALL_SETS = ['i2', 'i3', 's1', 'd2', 'p2']
 REWARDS = [0, 0.5, 1]
 LOG_PROB = {'log': 0.5, 'tiny': 0.01, 'micro': 0.0001}
@@ -149,6 +160,54 @@ def extreme2_configs():
     return out
 
 
+# ---- plan G: draws of the learner's private generator steered to the ends of [0,1) (the ORBIT idea of C05)
+_LCG_A, _LCG_C, _LCG_M = 116646453, 9, 2 ** 30
+_LCG_A_INV = pow(_LCG_A, -1, _LCG_M)
+
+
+def seed_with_first_state(v):
+    """The integer seed whose first uniform is v / 2**30."""
+    return ((v - _LCG_C) * _LCG_A_INV) % _LCG_M
+
+
+ORBIT_SEEDS = [seed_with_first_state(v) for v in (_LCG_M - 1, _LCG_M - 2, _LCG_M - 3, 0, 1)]      # u = 1-2^-30, 1-2^-29, ..., 0.0, 2^-30
+CORRAL_GAP_SEED, CORRAL_GAP_DRAW, CORRAL_GAP_MIN = 31, 5, 0.99996          # 5th uniform of CobaRandom(31*1.234) is 0.99998351...
+
+
+def orbit_selfcheck():
+    for s_, v in zip(ORBIT_SEEDS, (_LCG_M - 1, _LCG_M - 2, _LCG_M - 3, 0, 1)):
+        if CobaRandom(s_).random() != v / _LCG_M: raise HarnessError('ORBIT seed does not give the intended first uniform')
+    g = CobaRandom(CORRAL_GAP_SEED * 1.234)
+    us = [g.random() for _ in range(CORRAL_GAP_DRAW)]
+    if not us[-1] > CORRAL_GAP_MIN: raise HarnessError('the Corral gap seed does not draw near 1 any more')
+
+
+def orbit_configs():
+    """Fixed learners whose (accepted) pmf sums to less than 1 or has zero entries, on seeds whose first draw is at an end of [0,1)."""
+    out = []
+    for pmf in ([0.3332, 0.3332, 0.3332], [0.4998, 0.4998], [0, 1], [1, 0], [0.5, 0.5]):
+        for s_ in ORBIT_SEEDS: out.append({'l': 'Fixed', 'pmf': pmf, 'seed': s_})
+    return out
+
+
+def corral_gap_config():
+    """After learn(first action, reward 0, logged probability .01) the weights of this Corral sum to 0.99995242 (inside its 1e-4
+    accuracy) and stay there while the reward is 1; the 5th draw of its private generator (seed 31) is 0.99998351."""
+    return {'l': 'Corral', 'bases': [{'l': 'Fixed', 'pmf': [1, 0], 'seed': 1}, {'l': 'Fixed', 'pmf': [0, 1], 'seed': 1}],
+            'eta': 0.075, 'T': 'inf', 'mode': 'importance', 'seed': CORRAL_GAP_SEED}
+
+
+def typed_configs():
+    """Learners that turn actions into dictionary keys (and their wrappers), for the action-type plan T."""
+    E = {'l': 'Eps', 'eps': 0.1, 'seed': 1}; U = {'l': 'UCB', 'seed': 1}
+    out = [{'l': 'Random', 'seed': 1}, {'l': 'Fixed', 'pmf': [0.5, 0.5], 'seed': 1}, E, {'l': 'Eps', 'eps': 0, 'seed': 1}, U,
+           {'l': 'Mis', 'base': E, 'shift': 1, 'scale': -1}, {'l': 'Mis', 'base': U, 'shift': 1, 'scale': -1}]
+    for mode in ('importance', 'off-policy'):
+        out.append({'l': 'Corral', 'bases': [E, U], 'eta': 1, 'T': 'inf', 'mode': mode, 'seed': 1})
+    out.append({'l': 'Corral', 'bases': [E], 'eta': 0.075, 'T': 4, 'mode': 'importance', 'seed': 1})
+    return out
+
+
 E_MODES = [f'a{k}@{p}' for k in (0, 1) for p in ('1e-05', '0.0001', '1')]
 
 
@@ -180,6 +239,8 @@ def _canon(o, path, rngs):
     if t is dict: return ('D', *[(_canon(k, path, rngs), _canon(v, path, rngs)) for k, v in o.items()])
     if t is defaultdict: return ('DD', repr(o.default_factory), *[(_canon(k, path, rngs), _canon(v, path, rngs)) for k, v in o.items()])
     if t is HashableSparse: return ('HS', _canon(dict(o._item.items()), path, rngs))
+    if isinstance(o, Dense_): return ('XD', t.__name__, *[_canon(v, path, rngs) for v in o])                      # coba dense rows: by content
+    if isinstance(o, (Sparse_, abc.Mapping)): return ('XS', t.__name__, _canon(dict(o.items()), path, rngs))       # coba sparse rows / mappings
     if t is CobaRandom:
         rngs.append((o._seed, rng_state(o)))
         return 'R'
@@ -230,7 +291,7 @@ class Rec:
     def __init__(self): self.violations = []; self.outcome = None; self.dead = False; self.scores = None
 
     def v(self, key, what, dead=True):
-        self.violations.append((key, what))
+        self.violations.append((key, re.sub(r' object at 0x[0-9a-f]+', '', what)))
         if dead: self.dead = True
 
 
@@ -298,7 +359,7 @@ def do_step(L, d, op, rec=None, probe=False):
         if rec is not None:
             if any((not isinstance(s, (int, float))) or s != s or s < 0 for s in scores):
                 rec.v(K('score negative or not a number'), f'scores over {A!r}: {scores!r}'); return False
-            if abs(sum(scores) - 1) > 1e-9:
+            if abs(sum(scores) - 1) > (5.0001e-4 if d['l'] == 'Fixed' else 1e-9):     # Fixed: the tolerance its constructor accepts
                 rec.v(K('scores do not sum to 1'), f'scores over {A!r}: {scores!r} (sum {sum(scores)!r})'); return False
             if do_predict and abs(scores[idx] - p) > 1e-9:
                 rec.v(K('returned probability differs from score of the returned action'),
@@ -442,7 +503,8 @@ class C16(Check):
             'a fixed action set (quick depth 4 on [1,2]; thorough depth 4 full alphabet and depth 6 with rewards {0,.5} on [1,2] and '
             '[1,2,3]); Corral over two always disagreeing Fixed learners / [Eps,UCB] x eta {10,100} x both modes on [1,2] with the logged action '
             'chosen independently of the prediction (first / second) x logged probability {1e-5,1e-4,1} x rewards {0,1}, depth 4 (thorough 5); '
-            'query plans with predict-only / score-only / learn-without-query steps over changing action sets (depth 3, Corral 2; thorough 3-4). A distinct state is non-trivial when the step reaching it changed the learner state apart from its rng '
+            'Fixed pmfs summing to .9996 or with zero entries on seeds whose first uniform is at an end of [0,1), one Corral whose weights sum to .99995 when its '
+            'generator draws .99998; actions of coba row types / MappingProxyType (depth 3, thorough 4); query plans with predict-only / score-only / learn-without-query steps over changing action sets (depth 3, Corral 2; thorough 3-4). A distinct state is non-trivial when the step reaching it changed the learner state apart from its rng '
             'positions (the policy or its statistics moved)')
     ASSUMPTIONS = [
         'contexts are tied to the action set (None, tuple, str, list, dict): the learners are context-free',
@@ -451,6 +513,7 @@ class C16(Check):
         'rewards are 0, .5, 1; Misguided shifts them to [0,1] (flip) or to {-1,0,1} for BanditEpsilon only; Corral is never fed rewards outside [0,1]',
         'Corral.score is not constrained (each call re-samples its base learners; the statement constrains score for the deterministic-policy learners only)',
         'for Corral "the probability with which its policy selects the action" is taken as its own pmf value given the base proposals (sum of p_bar over the proposing base learners), not the marginal over base draws',
+        'for FixedLearner the scores must sum to 1 only within the tolerance its constructor accepts (round(sum,3) == 1), and the returned probability is the pmf entry as given',
         'score of an action outside the offered set, learn of an action outside the offered set, and seeds None are outside the alphabet',
         'the canonical state is every attribute reachable from the learner plus the LCG position of every CobaRandom; unknown attribute types abort the run (exit 2) instead of being ignored',
         'step horizon: one predict+score+learn step may use 2 s of CPU time (normal: < 1 ms); after a step exceeded it the rest of that case is not explored (reported as a cap)',
@@ -468,6 +531,7 @@ class C16(Check):
 
     def setup(self, tier):
         signal.signal(signal.SIGVTALRM, _vt_alarm)
+        orbit_selfcheck()
 
     # -------------------------------------------------------------- enumeration
     def cases(self, tier):
@@ -476,6 +540,10 @@ class C16(Check):
                   X  Corral over 3 base learners (eta {1,10}), [1,2], rewards {0,.5} x {own, logged .01, logged .0001}, depth 4
                   E  Corral over [Fixed([1,0]),Fixed([0,1])] / [Eps,UCB], eta {10,100}, both modes, [1,2]: rewards {0,1} x logged
                      action {first, second} x logged probability {1e-5, 1e-4, 1}, depth 4 (thorough: 5)
+                  G  Fixed pmfs summing to .9996 / with zero entries on seeds whose first uniform is 1-2^-30.., 0.0, 2^-30 (depth 2);
+                     one Corral whose weights sum to .99995 while its 5th draw is .99998 (depth 5 over a 2-step alphabet)
+                  T  actions of coba row types (LazyDense, HeadDense, SparseDense, LazySparse) and MappingProxyType: depth 3 (thorough 4)
+                     per set, and mixed with the equal tuple / dict actions (depth 2, thorough 3)
                   Q  seed 1 x all its action sets, rewards {0,1} x {own, learn without query} + predict only + score only: depth 3;
                      Corral {own} + predict only: depth 2
                   C  seed 1 x all its action sets, rewards {0,1}: others depth 3 (20 steps), Corral depth 2 (30 steps)
@@ -519,6 +587,15 @@ class C16(Check):
         # -- E: extreme logged propensities with a large learning rate; the logged action is chosen independently of the prediction
         for d in extreme2_configs():
             yield case(d, ['i2'], R01, E_MODES, 4 if quick else 5)
+        # -- G: generator draws at the ends of [0,1) x pmfs that sum to less than 1 within the accepted tolerance / have zero entries
+        for d in orbit_configs():
+            for sn in sets_of(d):
+                if sn in ('i2', 'i3', 'p2'): yield case(d, [sn], R01, ['own', 'log'], 2)
+        yield case(corral_gap_config(), ['i2'], R01, ['a0@0.01'], CORRAL_GAP_DRAW)
+        # -- T: actions that are coba row types / read-only mappings
+        for d in typed_configs():
+            for sn in TYPED_SETS: yield case(d, [sn], R01, modes_of(d), 3 if quick else 4)
+            if d['l'] in ('Eps', 'UCB', 'Corral'): yield case(d, ['d2', 'ld2', 'p2', 'mp2'], R01, ['own'], 2 if quick else 3)
         # -- Q: queries that are not followed by a learn (predict only, score only), learn without a query before it
         QM = ['own', 'learn', 'predict', 'score']
         for d in cfgs:
